@@ -528,7 +528,8 @@ fn run_case_inner(rng: &mut Rng, sc: &Scenario, cfg: &RunCfg, model: &mut Model,
                     p.push(sfn(n));
                     if let Some(rf) = gs.trees[gd.vol].file_at(&p) {
                         rep.oracle_checks += 1;
-                        if rf.attr & 0x01 != 0 {
+                        // (a file the reference no longer tracks - after a faulted delete it may be gone and re-created - is exempt)
+                        if rf.attr & 0x01 != 0 && !rf.opaque {
                             local_violation = true;
                             rep.violation("impl-vs-spec", "read-only-file-opened-for-writing", &format!("`{}` succeeded on a file whose attribute byte is {:#04x} (read-only bit set)", op.show(), rf.attr),
                                 replay_of(&ops, &outcomes, sidx, sc, J::obj(vec![("op", J::s(op.show())), ("attr", J::i(rf.attr as i128))])));
